@@ -6,7 +6,7 @@ live here; helper lemmas are in `Perc/*.lean`.  Histories: every list of well-fo
 requests (`Req.WF`) applied to the empty store — any length, any order, duplicates, requests
 arriving late, requests naming keys the transaction never touched.
 -/
-import NoKVModel.Perc.Outcome
+import NoKVModel.Perc.Resend
 
 namespace NoKV.Props.C18
 open NoKV NoKV.Perc
@@ -74,60 +74,167 @@ theorem C18_unique_outcome (c : PercCfg) (hc : c.ConflictGood) (reqs : List Req)
     (∀ l, (run c Store.empty reqs k).lock = some l → ∀ w ∈ (run c Store.empty reqs k).writes, w.start ≠ l.ts) :=
   ⟨(Inv.run hc reqs _ hwf Inv.empty k).uniq, (Inv.run hc reqs _ hwf Inv.empty k).lockFresh⟩
 
-/-- **Re-application changes nothing (part).**  After any history: the per-key effect of a
-rollback and of a prewrite mutation is idempotent, and so is a whole `Commit` request of one key.
+/-! ### re-sent requests
 
-Missing for the full statement: multi-key requests (the loops of `Prewrite`/`Commit`/
-`BatchRollback`/`ResolveLock` applied twice) and re-application of a whole prefix of the command
-log; the replies are not claimed equal either (a repeated `ResolveLock` reports 0 resolved keys, a
-repeated expiry check reports "lock not exist" instead of "TTL expired"). -/
-theorem C18_idempotent_partial (c : PercCfg) (hc : c.ConflictGood) (reqs : List Req) (hwf : ∀ r ∈ reqs, r.WF) (k : Bytes) :
-    (∀ st, rollbackK c st (rollbackK c st (run c Store.empty reqs k)) = rollbackK c st (run c Store.empty reqs k)) ∧
-    (∀ h m, (prewriteK c h m (prewriteK c h m (run c Store.empty reqs k)).1).1 = (prewriteK c h m (run c Store.empty reqs k)).1) ∧
-    (∀ st ct, st < ct → k ≠ [] →
-      (commit c st ct (commit c st ct (run c Store.empty reqs) [k]).1 [k]).1 = (commit c st ct (run c Store.empty reqs) [k]).1) := by
-  have hc' : c.conflictOp = .ge := hc
-  have hinv : Inv (run c Store.empty reqs) := Inv.run hc reqs _ hwf Inv.empty
-  generalize run c Store.empty reqs = s at *
-  have hki := hinv k
-  refine ⟨?_, ?_, ?_⟩
-  · intro st
-    rcases rollbackK_cases c st (s k) with ⟨_, h1⟩ | ⟨_, heq⟩
-    · rw [h1, h1]
-    · have hi' : KInv (rollbackK c st (s k)) := KInv.rollbackK st (s k) hki
-      have hmem : (⟨st, st, .rollback⟩ : WRec) ∈ (rollbackK c st (s k)).writes := by
-        rw [heq]; exact mem_ins_self _ _ _
-      exact rollbackK_of_mem hi' hmem
-  · intro h m
-    rcases prewriteK_cases c hc h m (s k) hki.sw with ⟨h1, _⟩ | ⟨K, V, hKV, hlk, hall, heq⟩
-    · rw [h1]; exact h1
-    · rw [heq]
-      simp only
-      -- second application on the state just written
-      have hlo : lockedByOther (pwState h K V (s k)) h.start = none := by
-        simp [lockedByOther, pwState, mkLock]
-      have hcf : conflictWith c (pwState h K V (s k)) h.start = none := by
-        simp only [conflictWith, pwState, mostRecent]
-        cases hws : (s k).writes with
-        | nil => rfl
-        | cons x xs =>
-          have := hall x (by rw [hws]; exact List.mem_cons_self)
-          simp only [List.head?_cons, hc', ge_nat]
-          simp [this]
-      simp only [prewriteK, hlo, hcf]
-      rcases hKV with ⟨hop, hK, hV⟩ | ⟨hop, hK, hV⟩ | ⟨hop, hK, hV⟩ <;>
-        simp only [prewriteWrite, hop, pwState, hK, hV, insD, ins_idem DRec.ts _ _ hki.sd]
-  · intro st ct hlt hk0
-    rcases commit_single c st ct s k hk0 hki with h1 | ⟨l, hl, hts, heq, h1⟩
-    · rw [h1, h1]
-    · rw [h1]
-      have hi' : KInv ((s.set k (cmState l ct (s k))) k) := by
-        have := KInv.commitK (c := c) k l ct (s k) hl (by omega) hki
-        rw [heq] at this
-        rw [Store.set_same]; exact this
-      rcases commit_single c st ct (s.set k (cmState l ct (s k))) k hk0 hi' with h2 | ⟨l', hl', _, _, _⟩
-      · exact h2
-      · rw [Store.set_same] at hl'; cases hl'
+FULL STATEMENT.  For every history of Percolator requests of any number of transactions and every
+request `r` already answered in that history, re-sending `r` — any number of times, at any later
+point, interleaved with any other requests — leaves the store unchanged; a transaction's outcome,
+once committed or rolled back on a key, is final and unique: never both a commit and a rollback
+record for one start ts, no second commit ts.
+
+Uniqueness and finality are `C18_unique_outcome`, `C18_rollback_final`, `C18_commit_final` above and
+`C18_outcome_persists` below.  "Leaves the store unchanged" is proved below, one theorem per
+request kind, over all histories `pre ++ r :: mid` (any `pre`, any `mid`; "any number of times"
+follows because the re-sent request leaves a store that is again of this form):
+
+* `Prewrite`, `Commit`, `BatchRollback` answered with success: the WHOLE store is unchanged;
+* `ResolveLock` answered with success: every key it resolved, and every key it does not name, is
+  unchanged.  A key it named that carried no lock of the transaction then is not claimed: a
+  prewrite of the transaction arriving later puts a lock there, and resolving that lock is what a
+  re-sent `ResolveLock` is for;
+* `CheckTxnStatus`: unchanged as soon as the transaction's outcome is recorded on the primary;
+  before that a re-sent check may legitimately act (the lock may have expired meanwhile).
+
+What is NOT claimed, because it is false of the protocol as implemented, is "the same answer":
+a `Prewrite` re-sent after its transaction ended is answered `WriteConflict`, a `Commit` re-sent
+while another transaction holds a lock on one of its (committed) keys is answered `Locked`; only
+`BatchRollback` is shown to answer success again.  Records of a transaction stay in place as long
+as no other transaction reuses their timestamps in the other role (`Req.clobbers`: the hypothesis
+of unique timestamps, stated for exactly the records concerned).
+
+The tree as found violates the `Prewrite` part: see `C18_fails_asis_prewrite_resend`. -/
+
+/-- **A recorded outcome persists.**  A write record `(t0, st)` present after any history stays in
+place through any further history in which no other transaction uses `t0` as its commit ts or is
+rolled back with start ts `t0`. -/
+theorem C18_outcome_persists (c : PercCfg) (hc : c.ConflictGood) (pre mid : List Req)
+    (hwf : ∀ x ∈ pre ++ mid, x.WF) (k : Bytes) (t0 st : Nat)
+    (hrec : HasRecAt t0 st (run c Store.empty pre k)) (hnc : ∀ x ∈ mid, ¬ x.clobbers t0 st) :
+    HasRecAt t0 st (run c Store.empty (pre ++ mid) k) := by
+  have hinv : Inv (run c Store.empty pre) :=
+    Inv.run hc pre _ (fun x hx => hwf x (List.mem_append_left _ hx)) Inv.empty
+  rw [run_append]
+  exact (hasRec_run c hc t0 st k mid _ (fun x hx => hwf x (List.mem_append_right _ hx)) hnc
+    (fun k' => ⟨hinv k', fun h => by subst h; exact hrec⟩) k).2 rfl
+
+/-- **Re-sent Prewrite.**  A `Prewrite` answered without error, re-sent at any later point, changes
+nothing: where the transaction still holds its lock the lock (with a min-commit ts pushed
+meanwhile) and the data are kept, where the transaction is over the request bounces. -/
+theorem C18_resend_prewrite (c : PercCfg) (hc : c.ResendGood) (pre mid : List Req) (h : PwHdr) (muts : List Mut)
+    (hwf : ∀ x ∈ pre ++ .prewrite h muts :: mid, x.WF)
+    (hok : (Req.prewrite h muts).ok c (run c Store.empty pre)) (k : Bytes) :
+    apply c (run c Store.empty (pre ++ .prewrite h muts :: mid)) (.prewrite h muts) k =
+      run c Store.empty (pre ++ .prewrite h muts :: mid) k := by
+  obtain ⟨hcf, ho, hk⟩ := hc
+  have hwfp : ∀ x ∈ pre, x.WF := fun x hx => hwf x (List.mem_append_left _ hx)
+  have hwfr : (Req.prewrite h muts).WF := hwf _ (List.mem_append_right _ List.mem_cons_self)
+  have hwfm : ∀ x ∈ mid, x.WF := fun x hx => hwf x (List.mem_append_right _ (List.mem_cons_of_mem _ hx))
+  have hinv0 : Inv (run c Store.empty pre) := Inv.run hcf pre _ hwfp Inv.empty
+  have hinv1 : Inv (apply c (run c Store.empty pre) (.prewrite h muts)) := Inv.apply hcf _ hwfr hinv0
+  rw [run_append, run_cons]
+  have hinvS : Inv (run c (apply c (run c Store.empty pre) (.prewrite h muts)) mid) := Inv.run hcf mid _ hwfm hinv1
+  simp only [apply]
+  apply prewrite_noop hcf hk h muts _ hinvS
+  intro m hm _
+  have hheld : Held h.start ((prewrite c h (run c Store.empty pre) muts).1 m.key) :=
+    prewrite_ok_held c hcf h m.key muts _ hinv0 hwfr hok ⟨m, hm, rfl⟩
+  exact ((run_stable (HeldOrGone.stable hcf ho m.key h.start) mid _ hwfm
+    (fun k' => ⟨hinv1 k', fun hk' => by subst hk'; exact Or.inl hheld⟩)) m.key).2 rfl
+
+/-- **Re-sent Commit.**  A `Commit` answered with success, re-sent at any later point, changes
+nothing (whatever its keys have been through since: other transactions' locks, commits, rollbacks). -/
+theorem C18_resend_commit (c : PercCfg) (hc : c.ConflictGood) (pre mid : List Req) (st ct : Nat) (keys : List Bytes)
+    (hwf : ∀ x ∈ pre ++ .commit st ct keys :: mid, x.WF)
+    (hok : (Req.commit st ct keys).ok c (run c Store.empty pre)) (k : Bytes) :
+    apply c (run c Store.empty (pre ++ .commit st ct keys :: mid)) (.commit st ct keys) k =
+      run c Store.empty (pre ++ .commit st ct keys :: mid) k := by
+  have hwfp : ∀ x ∈ pre, x.WF := fun x hx => hwf x (List.mem_append_left _ hx)
+  have hwfr : (Req.commit st ct keys).WF := hwf _ (List.mem_append_right _ List.mem_cons_self)
+  have hwfm : ∀ x ∈ mid, x.WF := fun x hx => hwf x (List.mem_append_right _ (List.mem_cons_of_mem _ hx))
+  have hinv0 : Inv (run c Store.empty pre) := Inv.run hc pre _ hwfp Inv.empty
+  have hinv1 : Inv (apply c (run c Store.empty pre) (.commit st ct keys)) := Inv.apply hc _ hwfr hinv0
+  rw [run_append, run_cons]
+  simp only [apply]
+  by_cases hin : k ∈ keys
+  · have hg := commit_ok_gone c hc st ct hwfr k keys _ hinv0 hin hok
+    have hgS := ((run_stable (Gone.stable hc k st) mid _ hwfm
+      (fun k' => ⟨hinv1 k', fun hk' => by subst hk'; exact hg⟩)) k).2 rfl
+    exact commit_untouched c st ct k keys _ hgS.noLock
+  · exact commit_frame c st ct k keys _ hin
+
+/-- **Re-sent BatchRollback.**  A `BatchRollback` answered with success, re-sent at any later point,
+changes nothing and is answered with success again — provided the timestamps of the transaction's
+records on these keys are not reused by other transactions in between. -/
+theorem C18_resend_rollback (c : PercCfg) (hc : c.ConflictGood) (pre mid : List Req) (st : Nat) (keys : List Bytes)
+    (hwf : ∀ x ∈ pre ++ .rollback st keys :: mid, x.WF)
+    (hok : (Req.rollback st keys).ok c (run c Store.empty pre))
+    (huniq : ∀ k ∈ keys, ∀ w ∈ (apply c (run c Store.empty pre) (.rollback st keys) k).writes, w.start = st →
+      ∀ x ∈ mid, ¬ x.clobbers w.ts st) :
+    (∀ k, apply c (run c Store.empty (pre ++ .rollback st keys :: mid)) (.rollback st keys) k =
+      run c Store.empty (pre ++ .rollback st keys :: mid) k) ∧
+    (Req.rollback st keys).ok c (run c Store.empty (pre ++ .rollback st keys :: mid)) := by
+  have hwfp : ∀ x ∈ pre, x.WF := fun x hx => hwf x (List.mem_append_left _ hx)
+  have hwfm : ∀ x ∈ mid, x.WF := fun x hx => hwf x (List.mem_append_right _ (List.mem_cons_of_mem _ hx))
+  have hinv0 : Inv (run c Store.empty pre) := Inv.run hc pre _ hwfp Inv.empty
+  have hinv1 : Inv (apply c (run c Store.empty pre) (.rollback st keys)) := Inv.apply hc _ trivial hinv0
+  have hinvS : Inv (run c (apply c (run c Store.empty pre) (.rollback st keys)) mid) := Inv.run hc mid _ hwfm hinv1
+  rw [run_append, run_cons]
+  refine ⟨?_, rollback_answers_ok c st keys _ (rollback_ok_nonempty c st keys _ hok)⟩
+  intro k
+  simp only [apply]
+  by_cases hin : k ∈ keys
+  · obtain ⟨w, hw, hs⟩ := rollback_ok_recorded c st k keys _ hinv0 hin hok
+    have hrec := ((hasRec_run c hc w.ts st k mid _ hwfm (huniq k hin w hw hs)
+      (fun k' => ⟨hinv1 k', fun hk' => by subst hk'; exact ⟨w, hw, rfl, hs⟩⟩)) k).2 rfl
+    obtain ⟨w', hw', _, hs'⟩ := hrec
+    exact rollback_recorded c st k keys _ (hinvS k) ⟨w', hw', hs'⟩
+  · exact rollback_frame c st k keys _ hin
+
+/-- **Re-sent ResolveLock.**  A `ResolveLock` answered with success, re-sent at any later point,
+leaves unchanged every key it does not name and every key that carried a lock of the transaction
+when it was answered (those it resolved). -/
+theorem C18_resend_resolve (c : PercCfg) (hc : c.ConflictGood) (pre mid : List Req) (st ct : Nat) (keys : List Bytes)
+    (hwf : ∀ x ∈ pre ++ .resolve st ct keys :: mid, x.WF)
+    (hok : (Req.resolve st ct keys).ok c (run c Store.empty pre)) (k : Bytes)
+    (hk : k ∉ keys ∨ (k ≠ [] ∧ ¬ NoLockOf st (run c Store.empty pre k))) :
+    apply c (run c Store.empty (pre ++ .resolve st ct keys :: mid)) (.resolve st ct keys) k =
+      run c Store.empty (pre ++ .resolve st ct keys :: mid) k := by
+  have hwfp : ∀ x ∈ pre, x.WF := fun x hx => hwf x (List.mem_append_left _ hx)
+  have hwfr : (Req.resolve st ct keys).WF := hwf _ (List.mem_append_right _ List.mem_cons_self)
+  have hwfm : ∀ x ∈ mid, x.WF := fun x hx => hwf x (List.mem_append_right _ (List.mem_cons_of_mem _ hx))
+  have hinv0 : Inv (run c Store.empty pre) := Inv.run hc pre _ hwfp Inv.empty
+  have hinv1 : Inv (apply c (run c Store.empty pre) (.resolve st ct keys)) := Inv.apply hc _ hwfr hinv0
+  rw [run_append, run_cons]
+  simp only [apply]
+  by_cases hin : k ∈ keys
+  · rcases hk with hk | ⟨hne, hlk⟩
+    · exact absurd hin hk
+    · rcases resolve_ok_nolock c hc st ct hwfr k keys _ 0 hinv0 hin hne hok with h | hg
+      · exact absurd h hlk
+      · have hgS := ((run_stable (Gone.stable hc k st) mid _ hwfm
+          (fun k' => ⟨hinv1 k', fun hk' => by subst hk'; exact hg⟩)) k).2 rfl
+        exact resolve_untouched c st ct k keys _ 0 hgS.noLock
+  · exact resolve_frame c st ct k keys _ 0 hin
+
+/-- **Re-sent CheckTxnStatus.**  Once the primary carries a record of the transaction (commit or
+rollback — written by this very check or before it), re-sending the check at any later point
+changes nothing, provided that record's timestamp is not reused by another transaction in between. -/
+theorem C18_resend_check (c : PercCfg) (hc : c.ConflictGood) (pre mid : List Req) (q : CsReq)
+    (hwf : ∀ x ∈ pre ++ .check q :: mid, x.WF) (t0 : Nat)
+    (hrec : HasRecAt t0 q.lockTs (apply c (run c Store.empty pre) (.check q) q.primary))
+    (huniq : ∀ x ∈ mid, ¬ x.clobbers t0 q.lockTs) (k : Bytes) :
+    apply c (run c Store.empty (pre ++ .check q :: mid)) (.check q) k =
+      run c Store.empty (pre ++ .check q :: mid) k := by
+  have hwfp : ∀ x ∈ pre, x.WF := fun x hx => hwf x (List.mem_append_left _ hx)
+  have hwfm : ∀ x ∈ mid, x.WF := fun x hx => hwf x (List.mem_append_right _ (List.mem_cons_of_mem _ hx))
+  have hinv0 : Inv (run c Store.empty pre) := Inv.run hc pre _ hwfp Inv.empty
+  have hinv1 : Inv (apply c (run c Store.empty pre) (.check q)) := Inv.apply hc _ trivial hinv0
+  have hinvS : Inv (run c (apply c (run c Store.empty pre) (.check q)) mid) := Inv.run hc mid _ hwfm hinv1
+  rw [run_append, run_cons]
+  simp only [apply]
+  obtain ⟨w, hw, _, hs⟩ := ((hasRec_run c hc t0 q.lockTs q.primary mid _ hwfm huniq
+    (fun k' => ⟨hinv1 k', fun hk' => by subst hk'; exact hrec⟩)) q.primary).2 rfl
+  exact check_recorded c q _ (hinvS q.primary) ⟨w, hw, hs⟩ k
 
 /-! ### the tree as found -/
 
@@ -150,9 +257,41 @@ theorem C18_fails_asis_commit_after_rollback (c : PercCfg) (hc : c.AllOps ∧ c.
   generalize c.scanSeesLockOnlyKeys = b5
   generalize c.rollbackChecksOwner = b6
   generalize c.ttlOverflowGuard = b7
-  cases b1 <;> cases b2 <;> cases b3 <;> cases b4 <;> cases b5 <;> cases b6 <;> cases b7 <;> decide
+  generalize c.prewriteKeepsOwnLock = b8
+  cases b1 <;> cases b2 <;> cases b3 <;> cases b4 <;> cases b5 <;> cases b6 <;> cases b7 <;> cases b8 <;> decide
+
+/-- transaction 20 prewrites `a`; a reader at 33 pushes the lock's min-commit ts to 34; the
+prewrite is sent again -/
+def wResend : List Req :=
+  [.prewrite ⟨20, ka, 100, 0⟩ [⟨.put, ka, [2]⟩], .check ⟨ka, 20, 21, false, 33⟩]
+
+/-- `prewriteMutation` writes the lock again from the request when the key is already locked by
+the same transaction: the duplicate of a `Prewrite` answered with success changes the store — the
+min-commit ts pushed to 34 is back to 0, so the commit at 25 that the push was meant to exclude
+is accepted afterwards. -/
+theorem C18_fails_asis_prewrite_resend (c : PercCfg) (hc : c.AllOps ∧ c.prewriteKeepsOwnLock = false) :
+    (prewrite c ⟨20, ka, 100, 0⟩ Store.empty [⟨.put, ka, [2]⟩]).2 = [] ∧
+    ((run c Store.empty wResend ka).lock.map (·.minCommit)) = some 34 ∧
+    ((apply c (run c Store.empty wResend) (.prewrite ⟨20, ka, 100, 0⟩ [⟨.put, ka, [2]⟩]) ka).lock.map (·.minCommit)) = some 0 := by
+  obtain ⟨hops, hflag⟩ := hc
+  rw [PercCfg.eq_ofFlags c hops, hflag]
+  generalize c.getSkipsRollback = b1
+  generalize c.getSkipsLock = b2
+  generalize c.scanSkipsRollback = b3
+  generalize c.scanSkipsLock = b4
+  generalize c.scanSeesLockOnlyKeys = b5
+  generalize c.commitChecksRollback = b6
+  generalize c.rollbackChecksOwner = b7
+  generalize c.ttlOverflowGuard = b8
+  cases b1 <;> cases b2 <;> cases b3 <;> cases b4 <;> cases b5 <;> cases b6 <;> cases b7 <;> cases b8 <;> decide
 
 /-! ### non-vacuity -/
+
+example : PercCfg.good.ResendGood := by decide
+
+/-- under the good configuration the duplicate prewrite keeps the pushed min-commit ts -/
+example : ((apply PercCfg.good (run PercCfg.good Store.empty wResend) (.prewrite ⟨20, ka, 100, 0⟩ [⟨.put, ka, [2]⟩]) ka).lock.map (·.minCommit)) = some 34 := by
+  decide
 
 example : PercCfg.good.CommitGood := by decide
 
